@@ -60,10 +60,10 @@ theorem cancelPending_now (s : St) (c : Nat) : (cancelPending s c).now = s.now :
 
 structure Inv (s : St) : Prop where
   idsOk : ∀ k c, lookup k s.ids = some c →
-    c < s.n ∧ (s.caches c).ident = k ∧ (s.shutdown = false → (s.caches c).task.isSome = true)
+    c < s.n ∧ (s.caches c).ident = k ∧ (s.caches c).task.isSome = true
   taskOk : ∀ c, (s.caches c).task.isSome = true → lookup (s.caches c).ident s.ids = some c
   runOk : ∀ c, s.running = some c → c < s.n
-  sdOk : s.shutdown = true → (∀ c, (s.caches c).task = none) ∧ s.running = none
+  sdOk : s.shutdown = true → s.ids = [] ∧ (∀ c, (s.caches c).task = none) ∧ s.running = none
   timeOk : ∀ c dl, (s.caches c).task = some dl → s.now ≤ dl
 
 theorem inv_init : Inv init := by
@@ -221,8 +221,10 @@ theorem step_inv (s : St) (e : Ev) (h : Inv s) : Inv (step s e).1 := by
       simp only [Option.isSome_none, Bool.false_eq_true, if_false]
       obtain ⟨h1, h2, h3, h4, h5⟩ := h
       split
-      · exact ⟨h1, h2, h3, h4, h5⟩
-      · constructor <;> simp only [Cache.ident] at * <;> grind
+      · rename_i hs
+        have := h4 hs
+        constructor <;> simp only [lookup_nil, Cache.ident, Cache.cancelFuts] at * <;> grind
+      · constructor <;> simp only [lookup_nil, Cache.ident, Cache.cancelFuts] at * <;> grind
 
 /-! ### counting resolutions -/
 
@@ -234,6 +236,7 @@ def addN (r : Reply) (c : Nat) : Nat := if r = .added c then 1 else 0
 def isDrop : Ev → Bool
   | .clear => true
   | .shutdown => true
+  | .tmShutdown => true
   | _ => false
 
 macro "count_simp" : tactic =>
@@ -297,10 +300,7 @@ theorem step_count_eq (s : St) (e : Ev) (c : Nat) (h : Inv s) (hd : isDrop e = f
     · count_simp; grind
   | clear => simp [isDrop] at hd
   | shutdown => simp [isDrop] at hd
-  | tmShutdown =>
-    simp only [step]
-    repeat' split
-    all_goals count_simp <;> grind
+  | tmShutdown => simp [isDrop] at hd
   | futSet c0 i =>
     simp only [step]
     split
@@ -326,6 +326,10 @@ theorem step_count_drop (s : St) (e : Ev) (c : Nat) (hd : isDrop e = true) :
     split
     · simp [resN, addN]
     · simp [resN, addN, outN]
+  · simp only [step]
+    split
+    · simp [resN, addN]
+    · split <;> simp [resN, addN, outN]
 
 theorem step_count (s : St) (e : Ev) (c : Nat) (h : Inv s) :
     resN (step s e).2 c + outN (step s e).1 c ≤ addN (step s e).2 c + outN s c := by
@@ -412,7 +416,7 @@ theorem run_shutdown_mono (s : St) (evs : List Ev) (h : s.shutdown = true) : (fi
 /-- in a shut-down state (with the invariant) no event is answered by `timedOut` or `added` -/
 theorem step_after_shutdown (s : St) (e : Ev) (h : Inv s) (hs : s.shutdown = true) (c : Nat) :
     (step s e).2 ≠ .timedOut c ∧ (step s e).2 ≠ .added c := by
-  obtain ⟨ht, hr⟩ := h.sdOk hs
+  obtain ⟨hi, ht, hr⟩ := h.sdOk hs
   cases e <;> simp only [step, mkCache, cancelPending] <;> repeat' split
   all_goals simp_all
 
@@ -512,14 +516,8 @@ theorem step_count_eq' (s : St) (e : Ev) (c : Nat) (h : Inv s) (hd : isDrop e = 
   | false => exact step_count_eq s e c h hde
   | true =>
     have h0 : outN s c = 0 := outN_zero_of_not (hd hde)
-    cases e <;> simp [isDrop] at hde
-    · simp [step, resN, addN, outN] at h0 ⊢
-      exact h0
-    · simp only [step]
-      split
-      · simp [resN, addN]
-      · simp only [resN, addN, outN] at h0 ⊢
-        by_cases hv : hasVal c s.ids = true <;> simp_all [Cache.cancelFuts]
+    have := step_count_drop s e c hde
+    omega
 
 theorem run_count_eq' (s : St) (evs : List Ev) (c : Nat) (h : Inv s) (hd : NoDropWhileOutstanding s c evs) :
     (trace s evs).count (.claimed c) + (trace s evs).count (.timedOut c) + outN (final s evs) c
